@@ -110,6 +110,12 @@ func runC18(c *core.Ctx) {
 	fFingers, fKey, fVal, fHead, fPath = roles.fingers, roles.key, roles.val, roles.head, roles.path
 	intFields = roles.ints
 	put, get, rem := iterMethod(c, nt, "Put"), iterMethod(c, nt, "Get"), iterMethod(c, nt, "Remove")
+	c.Doc("print-walk", 1, "the list's String() walks level 0 from the head until nil and renders every node")
+	if ps := iterMethod(c, nt, "String"); ps != nil {
+		printWalk(c, ps)
+	} else {
+		c.Ok("print-walk", "skiplist", ctor.Pos(), "the list type has no String method: no printed form to decide")
+	}
 	if put == nil || get == nil || rem == nil {
 		c.Undecided("compare-normal-form", "skiplist", ctor.Pos(), "Put/Get/Remove not found")
 		return
@@ -153,7 +159,7 @@ func runC18(c *core.Ctx) {
 	// ---- traversals: candidate test, level loop and cursor effects (independent of the loop forms: c18trav.go)
 	advance := map[*ssa.Function]string{}
 	for fn := range trav {
-		advance[fn] = traversalRule(c, "skiplist."+fn.Name(), fn, LT, GT)
+		advance[fn] = traversalRule(c, "skiplist."+fn.Name(), fn, LT, GT, levelFields(c, ctor))
 	}
 	// siblings agree
 	if len(trav) == 2 {
@@ -540,14 +546,9 @@ func mkNodeRankIsHeight(c *core.Ctx, mk *ssa.Function) bool {
 	return n > 0
 }
 
-// mkNodeHeightBound: the height of a new node never exceeds the number of levels of the list (the length of the
-// head's finger slice and of the insertion path, as the constructor makes them): the height is a counter that
-// starts at 0 and is incremented only under `counter < list.<levels>`, so counter <= levels is an inductive
-// invariant (levels is a length, hence non-negative). A taller node makes Put index the path out of range.
-func mkNodeHeightBound(c *core.Ctx, ctor, mk *ssa.Function) {
-	name := "skiplist." + mk.Name()
-	// the integer field(s) that hold the length the constructor gives to the path / head fingers - wherever the
-	// constructor keeps it (a field of the list, or of a nested parameter struct)
+// levelFields: the integer field(s) that hold the length the constructor gives to the insertion path / head fingers -
+// wherever the constructor keeps it (a field of the list, or of a nested parameter struct).
+func levelFields(c *core.Ctx, ctor *ssa.Function) map[string]bool {
 	lvFields := map[string]bool{}
 	{
 		an := c.Analyze(ctor)
@@ -581,6 +582,18 @@ func mkNodeHeightBound(c *core.Ctx, ctor, mk *ssa.Function) {
 			}
 		}
 	}
+	return lvFields
+}
+
+// mkNodeHeightBound: the height of a new node never exceeds the number of levels of the list (the length of the
+// head's finger slice and of the insertion path, as the constructor makes them): the height is a counter that
+// starts at 0 and is incremented only under `counter < list.<levels>`, so counter <= levels is an inductive
+// invariant (levels is a length, hence non-negative). A taller node makes Put index the path out of range.
+func mkNodeHeightBound(c *core.Ctx, ctor, mk *ssa.Function) {
+	name := "skiplist." + mk.Name()
+	// the integer field(s) that hold the length the constructor gives to the path / head fingers - wherever the
+	// constructor keeps it (a field of the list, or of a nested parameter struct)
+	lvFields := levelFields(c, ctor)
 	if len(lvFields) == 0 {
 		c.Undecided("level-loops", name, mk.Pos(), "cannot find the field that records the number of levels (the length of the insertion path) in the constructor")
 		return
@@ -905,4 +918,191 @@ func phiLockstepPath(an *ir.Analysis, h *ssa.BasicBlock, phi *ssa.Phi, p *ir.Pat
 		}
 	}
 	return out
+}
+
+// printWalk: "its printed form always lists the live keys in ascending order": the list's String() walks level 0 from
+// the head until nil and renders every node it passes. Decided on SSA: exactly one loop-carried node cursor; it
+// enters as list.head (or head.fingers[0]); every other arrival is cursor.fingers[0]; the loop's head leaves iff
+// the cursor is nil; the cursor is used in the pass for something besides advancing (it is rendered). That the level-0
+// chain is ascending and holds exactly the live keys is the business of the splice/unlink/traversal rules.
+func printWalk(c *core.Ctx, fn *ssa.Function) {
+	const rule = "print-walk"
+	name := "skiplist." + fnLabel(fn)
+	fieldOf := func(fa *ssa.FieldAddr) string {
+		pt, ok := fa.X.Type().Underlying().(*types.Pointer)
+		if !ok {
+			return ""
+		}
+		st, ok := pt.Elem().Underlying().(*types.Struct)
+		if !ok || fa.Field >= st.NumFields() {
+			return ""
+		}
+		return st.Field(fa.Field).Name()
+	}
+	// load of <base>.<field>
+	loadField := func(v ssa.Value, field string) (ssa.Value, bool) {
+		u, ok := v.(*ssa.UnOp)
+		if !ok || u.Op != token.MUL {
+			return nil, false
+		}
+		fa, ok := u.X.(*ssa.FieldAddr)
+		if !ok || fieldOf(fa) != field {
+			return nil, false
+		}
+		return fa.X, true
+	}
+	// v = <node>.fingers[0]
+	level0Of := func(v ssa.Value) (ssa.Value, bool) {
+		u, ok := v.(*ssa.UnOp)
+		if !ok || u.Op != token.MUL {
+			return nil, false
+		}
+		ia, ok := u.X.(*ssa.IndexAddr)
+		if !ok {
+			return nil, false
+		}
+		k, ok := ia.Index.(*ssa.Const)
+		if !ok || k.Value == nil || k.Int64() != 0 {
+			return nil, false
+		}
+		return loadField(ia.X, fFingers)
+	}
+	isHead := func(v ssa.Value) bool {
+		b, ok := loadField(v, fHead)
+		if !ok {
+			return false
+		}
+		if len(fn.Params) > 0 && b == fn.Params[0] {
+			return true
+		}
+		// a spilled receiver (its address is taken for %p): a load of the receiver's cell
+		if u, isU := b.(*ssa.UnOp); isU && u.Op == token.MUL {
+			if al, isAl := u.X.(*ssa.Alloc); isAl {
+				for _, r := range *al.Referrers() {
+					if st, isSt := r.(*ssa.Store); isSt && st.Addr == al && len(fn.Params) > 0 && st.Val != fn.Params[0] {
+						return false
+					}
+				}
+				return true
+			}
+		}
+		return false
+	}
+	var cur *ssa.Phi
+	for _, b := range fn.Blocks {
+		for _, in := range b.Instrs {
+			phi, ok := in.(*ssa.Phi)
+			if !ok {
+				break
+			}
+			if isNodePtrType(phi.Type()) {
+				if cur != nil {
+					c.Undecided(rule, name, phi.Pos(), "String() carries more than one node cursor")
+					return
+				}
+				cur = phi
+			}
+		}
+	}
+	if cur == nil {
+		c.Undecided(rule, name, fn.Pos(), "String() has no loop over the nodes (no loop-carried node cursor)")
+		return
+	}
+	ok := true
+	entries, advances := 0, 0
+	for _, e := range cur.Edges {
+		switch {
+		case isHead(e):
+			entries++
+		default:
+			if n, is0 := level0Of(e); is0 && (n == cur || isHead(n)) {
+				if n == cur {
+					advances++
+				} else {
+					entries++
+				}
+				continue
+			}
+			ok = false
+			c.Fail(rule, name, cur.Pos(), "the print cursor arrives as %s: expected list.head on entry and cursor.fingers[0] (the level-0 successor) afterwards - a walk along another level, or from another node, does not list every live key", e.String())
+		}
+	}
+	if ok && (entries == 0 || advances == 0) {
+		ok = false
+		c.Fail(rule, name, cur.Pos(), "the print cursor has %d entries from the head and %d level-0 advances", entries, advances)
+	}
+	// the head of the loop leaves iff the cursor is nil
+	hb := cur.Block()
+	reaches := func(from, to *ssa.BasicBlock) bool {
+		seen := map[*ssa.BasicBlock]bool{}
+		var walk func(b *ssa.BasicBlock) bool
+		walk = func(b *ssa.BasicBlock) bool {
+			if b == to {
+				return true
+			}
+			if seen[b] {
+				return false
+			}
+			seen[b] = true
+			for _, s := range b.Succs {
+				if walk(s) {
+					return true
+				}
+			}
+			return false
+		}
+		return walk(from)
+	}
+	if iff, isIf := hb.Instrs[len(hb.Instrs)-1].(*ssa.If); !isIf {
+		c.Undecided(rule, name, cur.Pos(), "the loop head of the print walk does not end in a test")
+		return
+	} else {
+		bo, isB := iff.Cond.(*ssa.BinOp)
+		isNilC := func(v ssa.Value) bool { k, isK := v.(*ssa.Const); return isK && k.IsNil() }
+		if !isB || !(bo.Op == token.NEQ || bo.Op == token.EQL) || !(bo.X == cur && isNilC(bo.Y) || bo.Y == cur && isNilC(bo.X)) {
+			c.Undecided(rule, name, iff.Pos(), "the loop head of the print walk does not test the cursor against nil")
+			return
+		}
+		live, dead := hb.Succs[0], hb.Succs[1]
+		if bo.Op == token.EQL {
+			live, dead = dead, live
+		}
+		if !reaches(live, hb) || reaches(dead, hb) {
+			ok = false
+			c.Fail(rule, name, iff.Pos(), "the print walk must go on while the cursor is not nil and stop when it is nil")
+		}
+	}
+	// the node is rendered: a use besides advancing / testing
+	used := false
+	for _, r := range *cur.Referrers() {
+		switch x := r.(type) {
+		case *ssa.DebugRef, *ssa.Phi:
+		case *ssa.BinOp:
+		case *ssa.FieldAddr:
+			if fieldOf(x) != fFingers {
+				used = true
+			} else {
+				for _, rr := range *x.Referrers() {
+					if u, isU := rr.(*ssa.UnOp); isU {
+						for _, r3 := range *u.Referrers() {
+							if ia, isIA := r3.(*ssa.IndexAddr); !isIA || ia.X != u {
+								used = true
+							} else if k, isK := ia.Index.(*ssa.Const); !isK || k.Int64() != 0 {
+								used = true
+							}
+						}
+					}
+				}
+			}
+		default:
+			used = true
+		}
+	}
+	if !used {
+		ok = false
+		c.Fail(rule, name, cur.Pos(), "the print walk passes the nodes without rendering them (the cursor is only advanced and tested)")
+	}
+	if ok {
+		c.Ok(rule, name, fn.Pos(), "cursor := list.head; while cursor != nil { render cursor; cursor = cursor.fingers[0] }")
+	}
 }
